@@ -1,16 +1,29 @@
 """M2 world: the real `asyncio_taskpool.queue_context.Queue` driven one event-loop handle at a time (C20).
 
 Op lines (the same lines go to the Lean driver `qdriver`, where each is one `Q.step`):
-    put x | spawn | join | cancel c | gate c ok|exc | take | run [k]
+    mkq n | put x | produce x | cancelp j | spawn | join | cancel c | gate c ok|exc | take | run [k]
+`mkq n` (only as the first op line of a history) makes the queue of this history `Queue(maxsize=n)`; without it the
+queue is `Queue()`.  `put x` is `queue.put_nowait(x)` by non-task code (result `full` if that raises `QueueFull`);
+`produce x` creates a producer task `await queue.put(x)` (producer j = the number of producers so far; it blocks while the
+queue is full); `cancelp j` is `Task.cancel()` on producer j.
 `spawn` creates a consumer task `async with queue as item: await <harness gate>`; `gate c ok|exc` ends the body of
 consumer c normally / by exception; `cancel c` is `Task.cancel()`; `join` creates a task awaiting `queue.join()`;
 `take` is the plain `asyncio.Queue` protocol used next to the context manager by code outside every consumer task:
 `item = queue.get_nowait()` (result `empty` if that raises `QueueEmpty`), then `queue.item_processed()` for that item
-(a *hand mark*); `run k` executes the k-th ready handle of the loop.
+(a *hand mark*); `run k` executes the k-th ready handle of the loop (consumer, producer or joiner alike).
 
-Only public API of the library is used: `put_nowait`, `get_nowait`, `item_processed`, `async with`, `join`, `qsize`, and an override of `task_done`
-in a harness subclass (the context manager reaches `task_done` through `item_processed`, so every marking is seen).
-The unfinished counter is never read: the harness counts puts and successful `task_done` calls itself."""
+Observation line:
+    r=<result> | n=<qsize> u=<puts - successful task_done> q=<ready handles> | ev=<events of this op> | c=<consumer phases> |
+    j=<joiners> | g=puts,exits,tdCalls,valueErrors,takes,hputs m=<task_done calls per consumer> | p=<producer phases>
+Events: G c:item (block entered), C c (CancelledError seen by consumer c), X c (block left), T u (task_done ok, u left),
+VE (task_done raised), H item (taken by hand), J j (join returned), P j:item (producer j's put returned), K j
+(CancelledError left producer j's put).  Producer phases: N (not started) / W (started, inside put) / Dput / Dcan.
+
+Only public API of the library is used: `put_nowait`, `put`, `get_nowait`, `item_processed`, `async with`, `join`, `qsize`,
+`full`, and overrides of `task_done` and `put_nowait` in a harness subclass (the context manager reaches `task_done` through
+`item_processed`, so every marking is seen; `Queue.put()` ends with `self.put_nowait(item)`, so every item that enters the
+queue is counted at the moment it enters).  The unfinished counter is never read: the harness counts the items that
+entered the queue and the successful `task_done` calls itself."""
 import asyncio
 import collections
 import sys
@@ -25,15 +38,23 @@ class Boom(Exception):
 
 class Impl:
     def __init__(self):
-        from asyncio_taskpool.queue_context import Queue
         self.loop = StepLoop()
         self.loop.start()
         self.loop.set_exception_handler(lambda l, c: None)
+        self.fresh(0)
+
+    def fresh(self, maxsize):
+        """the state of a history that has just begun, with a queue of the given maxsize (0 = unbounded)"""
+        from asyncio_taskpool.queue_context import Queue
         W = self
+        self.maxsize = maxsize
         self.ev = []
-        self.puts = self.exits = self.td_calls = self.td_ok = self.ve = 0
+        # puts = items that actually entered the queue (counted in the put_nowait override); hputs = `put` ops that did not raise
+        self.puts = self.hputs = self.exits = self.td_calls = self.td_ok = self.ve = 0
+        self.full_raised = 0                     # `put` ops answered QueueFull
+        self.sync_items = []                     # items of every `put` op (accepted or not)
         self.marks = collections.Counter()       # consumer id -> task_done calls made while its task was running
-        self.task_ids = {}                       # Task -> consumer id
+        self.task_ids = {}                       # Task -> consumer id (consumer tasks only)
         self.foreign_marks = 0                   # task_done calls outside any consumer task
         self.takes = 0                           # items taken with get_nowait() by the op `take` (each is hand-marked once)
         self.hand_taken = []                     # those items
@@ -54,21 +75,32 @@ class Impl:
                     raise
                 W.td_ok += 1
                 W.ev.append(f"T{W.puts - W.td_ok}")
-        self.q = Q()
+
+            def put_nowait(q, item):
+                super().put_nowait(item)
+                W.puts += 1                      # the item is in the queue now
+        self.Q = Q
+        self.q = Q(maxsize=maxsize) if maxsize else Q()
         self.cons, self.gates, self.joins, self.phase = [], {}, [], {}
         self.took = {}                           # consumer id -> item handed to its block
         self.jstate = {}                         # joiner id -> dict(started, outstanding_at_start, done)
+        self.prods, self.pphase, self.pitem = [], {}, {}     # producer tasks, their phases and items
+        self.prod_ids = {}                       # Task -> producer id
+        self.cancelp_woken = set()               # producers whose first cancelp came while their wake-up handle was pending
+
+    def drain(self):
+        for t in self.cons + self.joins + self.prods:
+            if not t.done():
+                t.cancel()
+        for _ in range(100000):
+            if not self.loop.stepk(0):
+                break
 
     def close(self):
         """after the last observation: cancel what is still pending and drain the loop, so that no coroutine is
         finalised by the garbage collector on a closed loop"""
         try:
-            for t in self.cons + self.joins:
-                if not t.done():
-                    t.cancel()
-            for _ in range(100000):
-                if not self.loop.stepk(0):
-                    break
+            self.drain()
         except Exception:
             pass
         self.loop.stop_()
@@ -112,12 +144,57 @@ class Impl:
                 raise
         return run()
 
+    def producer(self, j, x):
+        W = self
+
+        async def run():
+            W.pphase[j] = "W"
+            try:
+                await W.q.put(x)
+            except asyncio.CancelledError:
+                W.ev.append(f"K{j}")
+                W.pphase[j] = "Dcan"
+                raise
+            W.ev.append(f"P{j}:{x}")
+            W.pphase[j] = "Dput"
+        return run()
+
     def do(self, toks):
         k = toks[0]
         res = "ok"
-        if k == "put":
-            self.puts += 1
-            self.q.put_nowait(int(toks[1]))
+        if k == "mkq":
+            # only meaningful as the first op of a history; anywhere else it starts the history afresh (as the driver does)
+            if self.cons or self.joins or self.prods:
+                self.drain()
+            self.fresh(int(toks[1]))
+        elif k == "put":
+            x = int(toks[1])
+            self.sync_items.append(x)
+            try:
+                self.q.put_nowait(x)
+            except asyncio.QueueFull:
+                res = "full"
+                self.full_raised += 1
+            else:
+                self.hputs += 1
+        elif k == "produce":
+            j = len(self.prods)
+            self.pphase[j] = "N"
+            self.pitem[j] = int(toks[1])
+            t = self.loop.create_task(self.producer(j, self.pitem[j]))
+            self.prod_ids[t] = j
+            self.prods.append(t)
+        elif k == "cancelp":
+            j = int(toks[1])
+            if j < len(self.prods):
+                t = self.prods[j]
+                first = self.pphase[j] == "W" and not t.done() and not t.cancelling()
+                before = self.loop.nready()
+                t.cancel()
+                # a pending putter future is cancelled by this and schedules the task's wake-up; if no handle was added, the
+                # wake-up was pending already: the producer had been woken by get_nowait()
+                if first and self.loop.nready() == before:
+                    self.cancelp_woken.add(j)
         elif k == "spawn":
             c = len(self.cons)
             self.phase[c] = "N"
@@ -177,13 +254,23 @@ class Impl:
             cs.append(ph)
         return cs
 
+    def pphases(self):
+        ps = []
+        for j, t in enumerate(self.prods):
+            ph = self.pphase[j]
+            if t.done() and ph == "N":
+                ph = "Dcan"                      # cancelled before its first step: the body never ran
+            ps.append(ph)
+        return ps
+
     def obs(self, res):
         if res == "bad-op":
             return "bad-op"
         js = ",".join("D" if t.done() else "P" for t in self.joins)
         ms = ",".join(str(self.marks[c]) for c in range(len(self.cons)))
         s = (f"r={res} | n={self.q.qsize()} u={self.puts - self.td_ok} q={self.loop.nready()} | ev={','.join(self.ev)} | "
-             f"c={','.join(self.phases())} | j={js} | g={self.puts},{self.exits},{self.td_calls},{self.ve},{self.takes} m={ms}")
+             f"c={','.join(self.phases())} | j={js} | "
+             f"g={self.puts},{self.exits},{self.td_calls},{self.ve},{self.takes},{self.hputs} m={ms} | p={','.join(self.pphases())}")
         self.ev.clear()
         return s
 
@@ -191,26 +278,45 @@ class Impl:
 # ------------------------------------------------------------------------------------------------ monitors
 class Monitors:
     """Direct statements of C20 over the real run, evaluated after every op.  They use the harness's own counts
-    (puts, items handed to blocks, block exits seen by the body, items taken by hand with `get_nowait()`, `task_done` calls
-    per consumer task and outside the consumer tasks), never the model."""
+    (items that entered the queue, `put` ops accepted, producers whose `put()` returned, items handed to blocks, block exits
+    seen by the body, items taken by hand with `get_nowait()`, `task_done` calls per consumer task and outside the consumer
+    tasks) and the public `qsize()`, never the model and never a private attribute of the queue."""
 
     def __init__(self, impl):
         self.I = impl
         self.fails = []                          # (name, step, detail)
+        self.reset()
+
+    def reset(self):
         self.prev_phase = []
+        self.prev_pphase = []
         self.prev_qsize = 0
         self.prev_td = 0
+        self.prev_puts = 0
         self.released = set()                    # joiners whose release condition has occurred
         self.waiting = set()                     # joiners inside join() that had to wait
         self.jdone = set()
+        # coverage only
+        self.seen_blocked = set()                # producers observed in phase W after an op
+        self.w_to_dcan = set()                   # producers cancelled inside put()
 
     def fail(self, name, step, detail):
         if not any(f[0] == name for f in self.fails):
             self.fails.append((name, step, detail))
 
-    def after(self, step, toks):
+    def trackable(self, j):
+        """producer j's item value is carried by nothing else in this history"""
         I = self.I
+        x = I.pitem[j]
+        return x not in I.sync_items and sum(1 for y in I.pitem.values() if y == x) == 1
+
+    def after(self, step, toks, res=None):
+        I = self.I
+        if toks[0] == "mkq":
+            self.reset()
         ph = I.phases()
+        pph = I.pphases()
+        qsize = I.q.qsize()
         # items put so far that were neither taken by a block that has exited nor taken and marked by hand: they wait in
         # the queue or are inside a block
         outstanding = I.puts - I.exits - I.takes
@@ -234,18 +340,75 @@ class Monitors:
         if I.td_calls != I.exits + I.takes:
             self.fail("marks-ne-block-exits", step,
                       f"task_done calls={I.td_calls} block exits={I.exits} hand-taken items={I.takes}")
-        # -- every item put is in the queue, was handed to a block or was taken by hand: nothing else takes an item
-        if I.puts != I.q.qsize() + len(I.took) + I.takes:
+        # -- a bounded queue never holds more than maxsize items
+        if I.maxsize > 0 and qsize > I.maxsize:
+            self.fail("over-maxsize", step, f"qsize {qsize} > maxsize {I.maxsize}")
+        # -- every item that entered the queue is in the queue, was handed to a block or was taken by hand: nothing else takes an item
+        if I.puts != qsize + len(I.took) + I.takes:
             self.fail("item-taken-by-nobody", step,
-                      f"puts={I.puts}, in the queue {I.q.qsize()}, handed to blocks {len(I.took)}, taken by hand {I.takes}")
+                      f"puts={I.puts}, in the queue {qsize}, handed to blocks {len(I.took)}, taken by hand {I.takes}")
+        # -- the items that entered the queue are those of the accepted `put` ops and of the producers whose put() returned
+        ndput = sum(1 for p in pph if p == "Dput")
+        if I.puts != I.hputs + ndput:
+            self.fail("put-count-mismatch", step,
+                      f"{I.puts} item(s) entered the queue, {I.hputs} put_nowait() accepted by hand, {ndput} producer(s) returned from put()")
+        # -- put_nowait by hand: QueueFull exactly when the queue was full, and then nothing changed
+        if toks[0] == "put" and res is not None:
+            was_full = I.maxsize > 0 and self.prev_qsize >= I.maxsize
+            if res == "full":
+                if not was_full:
+                    self.fail("put-nowait-verdict", step,
+                              f"put_nowait() raised QueueFull with {self.prev_qsize} item(s) in a queue of maxsize {I.maxsize}")
+                elif qsize != self.prev_qsize or I.puts != self.prev_puts:
+                    self.fail("put-nowait-verdict", step,
+                              f"put_nowait() raised QueueFull but qsize {self.prev_qsize}->{qsize}, puts {self.prev_puts}->{I.puts}")
+            elif was_full:
+                self.fail("put-nowait-verdict", step,
+                          f"put_nowait() accepted an item with {self.prev_qsize} item(s) in a queue of maxsize {I.maxsize}")
+            elif qsize != self.prev_qsize + 1 or I.puts != self.prev_puts + 1:
+                self.fail("put-nowait-verdict", step,
+                          f"put_nowait() accepted an item but qsize {self.prev_qsize}->{qsize}, puts {self.prev_puts}->{I.puts}")
         # -- a consumer cancelled while waiting marks nothing and removes no item
         for c, p in enumerate(ph):
             before = self.prev_phase[c] if c < len(self.prev_phase) else "N"
             if p == "Dcan" and before in ("N", "W") and c not in I.took:
-                if I.q.qsize() != self.prev_qsize or I.td_calls != self.prev_td:
+                if qsize != self.prev_qsize or I.td_calls != self.prev_td:
                     self.fail("cancelled-waiter-disturbed-queue", step,
-                              f"consumer {c} cancelled while waiting: qsize {self.prev_qsize}->{I.q.qsize()}, "
+                              f"consumer {c} cancelled while waiting: qsize {self.prev_qsize}->{qsize}, "
                               f"task_done calls {self.prev_td}->{I.td_calls}")
+        # -- a producer cancelled before its put() returned puts nothing
+        for j, p in enumerate(pph):
+            before = self.prev_pphase[j] if j < len(self.prev_pphase) else "N"
+            if p == "W":
+                self.seen_blocked.add(j)
+            if p == "Dcan" and before in ("N", "W"):
+                if before == "W":
+                    self.w_to_dcan.add(j)
+                if qsize != self.prev_qsize or I.puts != self.prev_puts:
+                    self.fail("cancelled-producer-disturbed-queue", step,
+                              f"producer {j} cancelled inside put(): qsize {self.prev_qsize}->{qsize}, "
+                              f"puts {self.prev_puts}->{I.puts}")
+        # -- identity of produced items (where the item value is carried by one producer only): the item of a cancelled
+        #    producer is never handed out, the item of any producer at most once
+        if I.prods:
+            handed = collections.Counter(list(I.took.values()) + I.hand_taken)
+            for j, p in enumerate(pph):
+                n = handed.get(I.pitem[j], 0)
+                if n and self.trackable(j):
+                    if p == "Dcan":
+                        self.fail("cancelled-producer-item-appeared", step,
+                                  f"producer {j} was cancelled inside put({I.pitem[j]}), yet item {I.pitem[j]} was handed out")
+                    elif p != "Dput":
+                        self.fail("cancelled-producer-item-appeared", step,
+                                  f"producer {j} ({p}) has not returned from put({I.pitem[j]}), yet item {I.pitem[j]} was handed out")
+                    if n > 1:
+                        self.fail("produced-item-duplicated", step, f"item {I.pitem[j]} of producer {j} was handed out {n} times")
+        # -- no lost putter wake-up: when nothing is ready to run, a producer waits inside put() only if the queue is full
+        if I.loop.nready() == 0 and (I.maxsize == 0 or qsize < I.maxsize):
+            for j, p in enumerate(pph):
+                if p == "W" and not I.prods[j].done():
+                    self.fail("producer-left-waiting", step,
+                              f"producer {j} waits inside put() with {qsize} item(s) in a queue of maxsize {I.maxsize} and no handle ready")
         # -- join() returns exactly when every item put so far was taken by a block that has exited or was taken and
         #    marked by hand
         for j, st in I.jstate.items():
@@ -265,7 +428,7 @@ class Monitors:
                         self.fail("join-returned-early", step,
                                   f"join {j} returned although never since its call all items were taken and exited / hand-marked "
                                   f"(now puts={I.puts}, block exits={I.exits}, hand-taken={I.takes})")
-        self.prev_phase, self.prev_qsize, self.prev_td = ph, I.q.qsize(), I.td_calls
+        self.prev_phase, self.prev_pphase, self.prev_qsize, self.prev_td, self.prev_puts = ph, pph, qsize, I.td_calls, I.puts
 
     def at_end(self, step, drained):
         """after the wind-down: every ready handle has been executed"""
@@ -278,37 +441,79 @@ class Monitors:
 
 # ------------------------------------------------------------------------------------------------ generation
 PROFILES = ("fifo", "mixed", "wild")
+PITEM = 100                                      # producer j puts item PITEM + j (sync puts carry 0..9): identity is trackable
 
 
 def gen_ops(rng, profile, maxlen):
-    """mostly well-formed histories; `fifo` runs handles in loop order, `mixed`/`wild` pick the k-th ready handle"""
+    """mostly well-formed histories; `fifo` runs handles in loop order, `mixed`/`wild` pick the k-th ready handle.
+    About 45 % of the histories use a bounded queue (`mkq 1..3` first) with enough puts / producers that the queue is
+    often full; the others use the unbounded queue and a few producers (which put at once)."""
     ops = []
-    nc = 0
+    nc = npr = 0
     nonfifo = {"fifo": 0.0, "mixed": 0.3, "wild": 0.6}[profile]
-    bad = 0.15 if profile == "wild" else 0.03    # ids that name no consumer
+    bad = 0.15 if profile == "wild" else 0.03    # ids that name no consumer / producer
+    bounded = rng.random() < 0.45
+    if bounded:
+        ops.append(f"mkq {rng.randint(1, 3)}")
+        #        put   produce cancelp take  spawn join  cancel gate  (rest: run)
+        w = (0.13, 0.15, 0.08, 0.08, 0.11, 0.05, 0.06, 0.10)
+    else:
+        w = (0.16, 0.05, 0.03, 0.06, 0.15, 0.07, 0.10, 0.14)
+    cum, acc = [], 0.0
+    for x in w:
+        acc += x
+        cum.append(acc)
+
+    def cid():
+        if nc == 0 or rng.random() < bad:
+            return rng.randint(0, nc + 1)
+        return rng.randrange(nc)
+
+    def pid():
+        if npr == 0 or rng.random() < bad:
+            return rng.randint(0, npr + 1)
+        if rng.random() < 0.5:
+            return rng.randrange(max(0, npr - 3), npr)       # a recent one: more likely still inside put()
+        return rng.randrange(npr)
+
+    def runs(n):
+        for _ in range(n):
+            ops.append(f"run {rng.randint(1, 3)}" if rng.random() < nonfifo else "run")
     for _ in range(rng.randint(3, maxlen)):
         c = rng.random()
-
-        def cid():
-            if nc == 0 or rng.random() < bad:
-                return rng.randint(0, nc + 1)
-            return rng.randrange(nc)
-        if c < 0.18:
+        if c < cum[0]:
             ops.append(f"put {rng.randint(0, 9)}")
-        elif c < 0.24:
+        elif c < cum[1]:
+            ops.append(f"produce {PITEM + npr}")
+            npr += 1
+            if bounded and rng.random() < 0.5:
+                runs(1)                                       # let it reach put() soon
+        elif c < cum[2]:
+            ops.append(f"cancelp {pid()}")
+        elif c < cum[3]:
             ops.append("take")
-        elif c < 0.40:
+            if bounded and npr and rng.random() < 0.35:
+                # between the get_nowait() that may have woken a putter and that putter's own step
+                r = rng.random()
+                if r < 0.6:
+                    ops.append(f"cancelp {pid()}")
+                elif r < 0.8:
+                    ops.append(f"put {rng.randint(0, 9)}")    # the woken putter will find the queue full again
+                else:
+                    ops.append("take")
+        elif c < cum[4]:
             ops.append("spawn")
             nc += 1
-        elif c < 0.47:
+        elif c < cum[5]:
             ops.append("join")
-        elif c < 0.58:
+        elif c < cum[6]:
             ops.append(f"cancel {cid()}")
-        elif c < 0.73:
+        elif c < cum[7]:
             ops.append(f"gate {cid()} {'ok' if rng.random() < 0.55 else 'exc'}")
         else:
-            for _ in range(rng.randint(1, 4)):
-                ops.append(f"run {rng.randint(1, 3)}" if rng.random() < nonfifo else "run")
+            runs(rng.randint(1, 4))
+            if bounded and npr and rng.random() < 0.12:
+                ops.append(f"cancelp {pid()}")                # a consumer step may just have woken a putter
     return ops
 
 
@@ -328,7 +533,7 @@ def execute(ops, winddown=True):
         lines.append(line)
         obs.append(I.obs(r))
         if r != "bad-op":
-            mon.after(len(lines) - 1, toks)
+            mon.after(len(lines) - 1, toks, r)
         return r
     try:
         for ln in ops:
@@ -353,12 +558,24 @@ def execute(ops, winddown=True):
                 kinds["exit:cancelled-while-waiting"] += 1
         taken = len(I.took)
         kinds["hand-marked"] += I.takes
+        pph = I.pphases()
+        if I.maxsize > 0:
+            kinds["bq:histories"] += 1
+            kinds["bq:producers-in-bounded"] += len(pph)
+        kinds["bq:producers"] += len(pph)
+        kinds["bq:blocked"] += sum(1 for j in mon.seen_blocked if j < len(pph))
+        kinds["bq:cancelled-while-waiting"] += sum(1 for j in mon.w_to_dcan if j < len(pph))
+        kinds["bq:cancelled-after-woken"] += sum(1 for j in I.cancelp_woken if j < len(pph) and pph[j] == "Dcan")
+        kinds["bq:cancelled-before-start"] += sum(1 for j, p in enumerate(pph) if p == "Dcan" and I.pphase[j] == "N")
+        kinds["bq:still-waiting-at-end"] += sum(1 for p in pph if p == "W")
+        kinds["bq:queue-full"] += I.full_raised
+        kinds["bq:items-put-by-producers"] += sum(1 for p in pph if p == "Dput")
     finally:
         I.close()
     return {"lines": lines, "obs": obs, "fails": mon.fails, "kinds": kinds, "taken": taken}
 
 
-FIELDS = ("r", "n", "u", "q", "ev", "c", "j", "g", "m")
+FIELDS = ("r", "n", "u", "q", "ev", "c", "j", "g", "m", "p")
 
 
 def canon(line):
